@@ -6,7 +6,7 @@ import "fmt"
 func unnamedEntry() Entry {
 	return Entry{Name: "unnamed", Build: func(f *Frag) {
 		f.Solo = true
-		form := f.N("form", 17)
+		form := f.N("form", 19)
 		switch form {
 		case 11, 12: // a definition that carries a number of ANOTHER kind (#N / !N), N off the running count, between unnamed globals and functions
 			filler := "attributes #2 = { nounwind }"
@@ -20,6 +20,14 @@ func unnamedEntry() Entry {
 			f.TopLine("@p = global i32* @2")
 			f.TopLine("@r = global i32* @0")
 			f.TopLine("define void @3() {\n  %%v = load i32, i32* @2\n  store i32 %%v, i32* @0\n  ret void\n}")
+		case 17: // a cleanup pad nested in an UNNAMED parent pad
+			f.TopLine("declare i32 @__CxxFrameHandler3(...)")
+			f.TopLine("declare void @vf()")
+			f.TopLine("define void @f() personality i8* bitcast (i32 (...)* @__CxxFrameHandler3 to i8*) {\n  invoke void @vf() to label %%1 unwind label %%2\n1:\n  ret void\n2:\n  %%3 = cleanuppad within none []\n  invoke void @vf() [ \"funclet\"(token %%3) ] to label %%4 unwind label %%5\n4:\n  cleanupret from %%3 unwind to caller\n5:\n  %%6 = cleanuppad within %%3 []\n  cleanupret from %%6 unwind to caller\n}")
+		case 18: // a catchswitch nested in an UNNAMED parent pad
+			f.TopLine("declare i32 @__CxxFrameHandler3(...)")
+			f.TopLine("declare void @vf()")
+			f.TopLine("define void @g() personality i8* bitcast (i32 (...)* @__CxxFrameHandler3 to i8*) {\n  invoke void @vf() to label %%1 unwind label %%2\n1:\n  ret void\n2:\n  %%3 = cleanuppad within none []\n  invoke void @vf() [ \"funclet\"(token %%3) ] to label %%4 unwind label %%5\n4:\n  cleanupret from %%3 unwind to caller\n5:\n  %%6 = catchswitch within %%3 [label %%7] unwind to caller\n7:\n  %%8 = catchpad within %%6 [i8* null, i32 64, i8* null]\n  catchret from %%8 to label %%4\n}")
 		case 16: // an unnamed block and a block NAMED like its number in one function, both address-taken
 			f.TopLine("@a = global i8* blockaddress(@f, %%1)")
 			f.TopLine("@b = global i8* blockaddress(@f, %%\"1\")")
@@ -119,7 +127,15 @@ func nameShapesEntry() Entry {
 	return Entry{Name: "name-shapes", Build: func(f *Frag) {
 		u := f.MDID() // a number unique in the module
 		var n string  // the spelling after the sigil
-		switch f.N("shape", 8) {
+		switch f.N("shape", 12) {
+		case 8: // ASCII punctuation between the upper- and lower-case letters (needs quotes)
+			n = fmt.Sprintf(`"%stab[0]"`, f.P)
+		case 9:
+			n = fmt.Sprintf(`"%sx^y"`, f.P)
+		case 10:
+			n = fmt.Sprintf("\"%sq`r\"", f.P)
+		case 11: // punctuation below and above the digits
+			n = fmt.Sprintf(`"%sa/b:c@d"`, f.P)
 		case 0:
 			n = f.P + "n"
 		case 1:
